@@ -79,3 +79,86 @@ Theorem check_index_refuted :
     normalize_index ix sh = Raise IndexError /\ resolve_all sh ix <> Raise IndexError.
 Proof. exact check_index_refuted_proof. Qed.
 Print Assumptions check_index_refuted.
+
+(* (3) ONE 1-D index array (integer: repeated, unsorted, negative entries; or boolean), the other
+   entries basic: _compute_multi_mask runs _compute_mask once per array entry (each call with its own
+   cut-over kf i); the array's result axis stays in place; the result is canonical (sorted=True is
+   passed only when the array sits on the first axis and no slice runs backwards, otherwise the
+   constructor sorts) and x[ix][j] = x[NumPy's source index of j].
+   Full statement: without d29_clause — FALSE of the code (finding D29), see
+   coo_getitem_one_array_refuted. *)
+From Verif Require Import CooIndexArrP.
+Theorem coo_getitem_one_array_partial :
+  forall (V : Type) (kf : nat -> nat) (x : coo V) (ix : index),
+    canonical V x -> shape_okb (c_shape x) = true -> no_zero_step ix = true ->
+    one_array ix = true -> d29_clause (c_shape x) ix = true ->
+    match np_index (c_shape x) ix with
+    | Raise e => getitem kf x ix = Raise e /\ e = IndexError
+    | Ok (sh', g) =>
+      match getitem kf x ix with
+      | Ok (GArr y) => c_shape y = sh' /\ c_fill y = c_fill x /\ canonical V y
+                       /\ forall j, in_range sh' j -> den y j = den x (g j)
+      | Ok (GScalar v) => sh' = [] /\ v = den x (g [])
+      | Raise _ => False
+      end
+    end.
+Proof. exact coo_getitem_one_array_proof. Qed.
+Print Assumptions coo_getitem_one_array_partial.
+
+Theorem coo_getitem_one_array_refuted :
+  exists (x : coo Z) (ix : index),
+    canonical Z x /\ shape_okb (c_shape x) = true /\ no_zero_step ix = true /\ one_array ix = true
+    /\ (exists sh' g, np_index (c_shape x) ix = Ok (sh', g))
+    /\ forall kf, getitem kf x ix = Raise IndexError.
+Proof. exact coo_getitem_one_array_refuted_proof. Qed.
+Print Assumptions coo_getitem_one_array_refuted.
+
+(* (5) GCXS: the selection kernels of _compressed/indexing.py (Model/GcxsIndex.v).  For rows of strictly
+   increasing column indices (which gcxs_wf guarantees, gcxs_rows_sorted) and a strictly increasing
+   list of requested columns, get_slicing_selection — whichever of the linear two-pointer filter and the
+   binary-search walk it takes for each row (any choice `path` that never sends an empty row into the
+   binary walk while columns are requested; the code's size test is such a choice) — and
+   get_array_selection both return exactly the filter spec (for every requested column, in order, the
+   position of that value in the row) and the matching indptr; no loop runs out of fuel and no
+   unchecked read leaves its array (the result is SOk). *)
+From Verif Require Import GCXS GcxsIndex GcxsIndexP.
+Theorem gcxs_selection_spec :
+  forall (path : nat -> bool) (arr_indices : list Z) (rows : list (nat * nat)) (col : list Z),
+    rows_sorted arr_indices rows -> sincr col -> path_safe path arr_indices rows col ->
+    slicing_selection path arr_indices rows col = SOk (selection_spec arr_indices rows col)
+    /\ array_selection arr_indices rows col = SOk (selection_spec arr_indices rows col).
+Proof. exact gcxs_selection_spec_proof. Qed.
+Print Assumptions gcxs_selection_spec.
+
+Theorem gcxs_code_path_safe :
+  forall (arr_indices : list Z) (rows : list (nat * nat)) (col : list Z),
+    path_safe (code_path arr_indices rows col) arr_indices rows col.
+Proof. exact code_path_safe. Qed.
+Print Assumptions gcxs_code_path_safe.
+
+Theorem gcxs_rows_sorted :
+  forall (V : Type) (g : gcxs V) (r : nat),
+    gcxs_wfb g = true -> (2 <= length (g_shape g))%nat -> (S r < length (g_indptr g))%nat ->
+    sincr (seg (g_indices g) (Z.to_nat (nth r (g_indptr g) 0)) (Z.to_nat (nth (S r) (g_indptr g) 0))).
+Proof. exact gcxs_wf_row_sorted. Qed.
+Print Assumptions gcxs_rows_sorted.
+
+(* The scalar-vs-0-d rule (basic indices): getitem returns a scalar exactly when NumPy does.
+   Full statement: without d26_clause — FALSE of the code (finding D26: with an Ellipsis that is not
+   the last entry and swallows no axis, e.g. x[..., 1, 2], the code returns a scalar, NumPy a 0-d
+   array), see coo_scalar_rule_refuted. *)
+From Verif Require Import CooIndexScalarP.
+Theorem coo_scalar_rule_partial :
+  forall (V : Type) (kf : nat -> nat) (x : coo V) (ix : index) (r : gres V),
+    shape_okb (c_shape x) = true -> no_zero_step ix = true -> basic ix = true ->
+    d26_clause (c_shape x) ix = true ->
+    getitem kf x ix = Ok r -> is_gscalar r = np_scalar (c_shape x) ix.
+Proof. exact coo_scalar_rule_proof. Qed.
+Print Assumptions coo_scalar_rule_partial.
+
+Theorem coo_scalar_rule_refuted :
+  exists (kf : nat -> nat) (x : coo Z) (ix : index) (r : gres Z),
+    shape_okb (c_shape x) = true /\ no_zero_step ix = true /\ basic ix = true
+    /\ getitem kf x ix = Ok r /\ is_gscalar r <> np_scalar (c_shape x) ix.
+Proof. exact coo_scalar_rule_refuted_proof. Qed.
+Print Assumptions coo_scalar_rule_refuted.
